@@ -64,6 +64,9 @@ type Case struct {
 	// slash, 2 trailing "/.", 3 doubled slash before the last element, 4 "<parent>/./<dir>", 5 relative to the
 	// working directory with a leading "./"
 	RootSpell int `json:"root_spell,omitempty"`
+	// LinkDirs (local backend): every generated collection without members is a symbolic link to a directory outside
+	// the served one (after C05-s17)
+	LinkDirs bool `json:"link_dirs,omitempty"`
 }
 
 func spellRoot(root string, how int) string {
@@ -190,8 +193,32 @@ func evaluate(c Case) (o vev.Outcome, err error) {
 			return o, err
 		}
 		defer os.RemoveAll(root)
-		for _, e := range c.Entries {
+		outside := ""
+		if c.LinkDirs {
+			outside, err = os.MkdirTemp("", "c05out")
+			if err != nil {
+				return o, err
+			}
+			defer os.RemoveAll(outside)
+		}
+		for i, e := range c.Entries {
 			p := filepath.Join(root, filepath.FromSlash(string(e.Path)))
+			if e.IsDir && c.LinkDirs {
+				memberless := true
+				for _, e2 := range c.Entries {
+					if strings.HasPrefix(trimSlash(string(e2.Path))+"/", trimSlash(string(e.Path))+"/") && trimSlash(string(e2.Path)) != trimSlash(string(e.Path)) {
+						memberless = false
+					}
+				}
+				if _, err := os.Lstat(p); memberless && err != nil {
+					t := filepath.Join(outside, fmt.Sprintf("t%d", i))
+					os.MkdirAll(t, 0o755)
+					os.MkdirAll(filepath.Dir(p), 0o755)
+					if err := os.Symlink(t, p); err == nil {
+						continue
+					}
+				}
+			}
 			if e.IsDir {
 				if err := os.MkdirAll(p, 0o755); err != nil {
 					return o, err
@@ -256,6 +283,25 @@ func evaluate(c Case) (o vev.Outcome, err error) {
 				// that does not come from the backend itself
 				if known != nil && !created && !known[trimSlash(fi.Path)] {
 					return dev("readdir|backend-lists-unknown-path", "LocalFileSystem.ReadDir(%q,%v) lists %q, which is none of the generated entries (root spelling %d)", name, op.Recursive, fi.Path, c.RootSpell), nil
+				}
+			}
+			if known != nil && !created {
+				// ... and every generated entry inside the listed collection is listed: the second expectation that does
+				// not come from the backend itself (a listing cut short would otherwise be mirrored faithfully)
+				dir := path.Clean(trimSlash(abs))
+				listed := map[string]bool{}
+				for _, fi := range want {
+					listed[path.Clean(trimSlash(fi.Path))] = true
+				}
+				for k := range known {
+					kk := path.Clean(k)
+					in := kk == dir || path.Dir(kk) == dir
+					if op.Recursive {
+						in = kk == dir || dir == "/" || strings.HasPrefix(kk, dir+"/")
+					}
+					if in && !listed[kk] {
+						return dev("readdir|backend-omits-generated-entry", "LocalFileSystem.ReadDir(%q,%v) lists %q and omits the generated entry %q (links for memberless collections: %v)", name, op.Recursive, paths(want), kk, c.LinkDirs), nil
+					}
 				}
 			}
 			sort.Slice(want, func(i, j int) bool { return want[i].Path < want[j].Path })
@@ -669,6 +715,7 @@ func TestRead(t *testing.T) {
 		c.Entries = genEntries(rt, c.Endpoint, c.Backend == "local")
 		if c.Backend == "local" {
 			c.RootSpell = rapid.SampledFrom([]int{0, 0, 1, 2, 3, 4, 5}).Draw(rt, "rootspell")
+			c.LinkDirs = rapid.IntRange(0, 2).Draw(rt, "linkdirs") == 0
 		}
 		n := rapid.IntRange(1, 5).Draw(rt, "nops")
 		for i := 0; i < n; i++ {
